@@ -12,34 +12,36 @@ import (
 
 // Job is what a worker process is asked to do.
 type Job struct {
-	Property string  `json:"property"`
-	Tier     string  `json:"tier"`
-	Master   uint64  `json:"master"`
-	Worker   int     `json:"worker"`
-	Workers  int     `json:"workers"`
-	BudgetS  float64 `json:"budget_s"`
-	MaxRuns  int     `json:"max_runs"`           // per worker, 0 = unlimited
-	FirstRun uint64  `json:"first_run"`          // run indices start here
-	SkipK    int     `json:"skip_k,omitempty"`   // this worker's first SkipK runs were done by a predecessor process
-	Replay   string  `json:"replay,omitempty"`   // replay this file instead of generating
-	Hashes   bool    `json:"hashes,omitempty"`   // record a history hash per run (determinism self-test)
-	CurPath  string  `json:"cur_path,omitempty"` // sidecar announcing the run in progress
-	Keep     bool    `json:"keep,omitempty"`     // keep full histories in the output (replay)
+	Property      string  `json:"property"`
+	Tier          string  `json:"tier"`
+	Master        uint64  `json:"master"`
+	Worker        int     `json:"worker"`
+	Workers       int     `json:"workers"`
+	BudgetS       float64 `json:"budget_s"`
+	MaxRuns       int     `json:"max_runs"`                  // per worker, 0 = unlimited
+	FirstRun      uint64  `json:"first_run"`                 // run indices start here
+	NoBlockWriter bool    `json:"no_block_writer,omitempty"` // see simWriter.noblock
+	SkipK         int     `json:"skip_k,omitempty"`          // this worker's first SkipK runs were done by a predecessor process
+	Replay        string  `json:"replay,omitempty"`          // replay this file instead of generating
+	Hashes        bool    `json:"hashes,omitempty"`          // record a history hash per run (determinism self-test)
+	CurPath       string  `json:"cur_path,omitempty"`        // sidecar announcing the run in progress
+	Keep          bool    `json:"keep,omitempty"`            // keep full histories in the output (replay)
 }
 
 // RunCase is one generated (or replayed) scenario of any world.
 type RunCase struct {
-	Property  string          `json:"property"`
-	Leg       string          `json:"leg"`
-	Run       uint64          `json:"run"`
-	Seed      uint64          `json:"seed"`
-	Search    *SearchScenario `json:"search,omitempty"`
-	UCI       *UCIScenario    `json:"uci,omitempty"`
-	UCICfg    *UCIGenCfg      `json:"uci_cfg,omitempty"` // generation mode only: the policy configuration
-	C14       []c14Case       `json:"c14,omitempty"`
-	GridSlice int             `json:"grid_slice,omitempty"` // C14 grid leg: 1 + slice index
-	C14Real   bool            `json:"c14_real,omitempty"`   // C14 cases run against the real search (parked inside its tree)
-	UCITwins  int             `json:"uci_twins,omitempty"`  // C08: replay the session on this many further drivers sharing the bubble
+	Property      string          `json:"property"`
+	Leg           string          `json:"leg"`
+	Run           uint64          `json:"run"`
+	Seed          uint64          `json:"seed"`
+	Search        *SearchScenario `json:"search,omitempty"`
+	UCI           *UCIScenario    `json:"uci,omitempty"`
+	UCICfg        *UCIGenCfg      `json:"uci_cfg,omitempty"` // generation mode only: the policy configuration
+	C14           []c14Case       `json:"c14,omitempty"`
+	GridSlice     int             `json:"grid_slice,omitempty"`      // C14 grid leg: 1 + slice index
+	C14Real       bool            `json:"c14_real,omitempty"`        // C14 cases run against the real search (parked inside its tree)
+	UCITwins      int             `json:"uci_twins,omitempty"`       // C08: replay the session on this many further drivers sharing the bubble
+	NoBlockWriter bool            `json:"no_block_writer,omitempty"` // the run used the non-blocking writer (see simWriter.noblock)
 }
 
 // RunResult is what one run produced.
